@@ -62,6 +62,11 @@ var c04Queries = []string{
 	`{ nodes(n:3) { meta { s } ... on A { meta { i } } ... on C { meta { f sNN } } } a { ...M } c { ...M } b { ...M } } fragment M on Node { meta { s } ... on A { meta { i } } ... on C { meta { b } } }`,
 	`{ nodes(n:3) { id ... on U { __typename ... on A { aOnly } } ... on Solo { ... on B { bOnly } } } node(as:"C") { ... on U { __typename ... on A { name } } id } u { ... on Node { id ... on Solo { __typename } } } x1 }`,
 	`query($no:Boolean = false, $yes:Boolean = true){ x1 @skip(if:$yes) x1 a @include(if:$no) { name } a { id leafy { s @skip(if:$yes) s sNN } } ...G @skip(if:$yes) ...G ... @include(if:$no) { ...H } ...H } fragment G on Query { x2 leafy { s } } fragment H on Query { x3 leafy { sNN } }`,
+	// object positions whose whole sub-selection is switched off by literal
+	// directives (the object is still completed and guarded: {} or null + error)
+	`{ a { name @skip(if:true) } b { ... @include(if:false) { id } } nodes(n:2) { ... on A @skip(if:true) { id } ... on B { bOnly @include(if:false) } } leafyNN { s @skip(if:true) } u { ... on A @include(if:false) { aOnly } } x1 }`,
+	// an abstract type without a type resolver whose members' IsTypeOf overlap
+	`{ fcs(n:3) { ... on First { id title } ... on Catch { id kind } } fc(as:"First") { ... on First { title } ... on Catch { kind } } f2: fc(as:"Catch") { ... on Catch { id title } } x1 }`,
 	`mutation { m1(v:1) { id nn { sNN } } s1(v:2) m2(v:3) { nodes(n:2) { id } } }`,
 	`mutation { deep { dNN { vNN } v } node(as:"B") { id ... on B { nn { s } } } s2(v:1) }`,
 }
@@ -143,8 +148,8 @@ func elemType(t string) string {
 func isListType(t string) bool { return strings.HasPrefix(strings.TrimSuffix(t, "!"), "[") }
 
 var c04LeafNames = map[string]bool{"String": true, "Int": true, "Float": true, "Boolean": true, "ID": true, "Kind": true, "Stamp": true}
-var c04AbsNames = map[string]bool{"Node": true, "U": true, "Solo": true}
-var c04IsTypeNames = map[string]bool{"A": true, "B": true, "C": true}
+var c04AbsNames = map[string]bool{"Node": true, "U": true, "Solo": true, "FC": true}
+var c04IsTypeNames = map[string]bool{"A": true, "B": true, "C": true, "First": true, "Catch": true}
 
 func c04Analyse(q string) *c04Info {
 	// (a generated document can recur with other variable values: the
